@@ -983,6 +983,11 @@ func genCase(r *Rng, big_ bool) Sx {
 				addDiverge()
 			}
 		}
+		// the harness finalises what is left at the end of the block (IntermediateRoot with this block's rules):
+		// do the same in the reference, explicitly, so that no touched/dirty marks leak into the next block
+		// (whose rules may differ)
+		add(c.fixNewContracts())
+		add([]op{c.emit(op{tag: opFinalise, rules: c.rs})})
 		blocks = append(blocks, b)
 	}
 	return encodeCase(cfg, blocks)
